@@ -159,6 +159,14 @@ func c01BodyOp(r *lp.Run, drv *gc.Driver, b *exSpec, oi gc.OpInfo, op bodyOp) {
 		case "delivered-different":
 			r.Fail(lp.PropFail{Property: "C01", What: "the handler receives a different request body than the caller supplied", Input: in, Observed: got, Expected: want})
 		default:
+			// D15: undeclared members of the instance do not survive decoding into the Go value, the value passes
+			// Validate() (which never counts properties) and the document on the wire violates min/maxProperties
+			if wire, ok := ans["wire"].(map[string]any); ok {
+				if wb, ok := wire["body"].(string); ok && stdValid([]byte(wb)) && !b.g.Env().Valid(op.schema, parseJSON(wb)) && c04Known(op.schema, b.g.Env(), wb) == "D15" {
+					r.Known(lp.PropFail{Property: "C01", Class: "D15", What: "a value that passes Validate() is sent as a document that violates min/maxProperties and is refused by the server", Input: in, Observed: wb, Expected: "refused by the client, or valid on the wire"})
+					continue
+				}
+			}
 			// the value came from decoding a valid instance: it passes validation and must be delivered
 			r.Fail(lp.PropFail{Property: "C01", What: "a valid request body is not delivered", Input: in, Observed: fmt.Sprint("client=", cl, " wire=", ans["wire"]), Expected: "delivered unchanged"})
 		}
